@@ -61,6 +61,8 @@ pub struct ACfg {
     pub clauses: u32,
     /// 0 none, 1 one combined read-only session, 2 every single read-only call, 3 all ordered pairs
     pub ro_mode: u8,
+    /// slots per size the start image already holds (its own history's peak); added to the slot-count bound
+    pub slot_slack: u32,
 }
 
 impl ACfg {
@@ -79,6 +81,7 @@ impl ACfg {
             oracles: 0,
             clauses: ALL_CLAUSES,
             ro_mode: 0,
+            slot_slack: 0,
         }
     }
     pub fn enc(&self) -> Vec<u8> {
@@ -114,7 +117,7 @@ impl ACfg {
                 }
             }
         }
-        b.u32(self.oracles).u32(self.clauses).u8(self.ro_mode);
+        b.u32(self.oracles).u32(self.clauses).u8(self.ro_mode).u32(self.slot_slack);
         b.0
     }
     pub fn dec(bytes: &[u8]) -> ACfg {
@@ -148,7 +151,8 @@ impl ACfg {
         let oracles = r.u32();
         let clauses = r.u32();
         let ro_mode = r.u8();
-        ACfg { prop, kt, params, keys, absent, vals, seed, extras, init_vals, oracles, clauses, ro_mode }
+        let slot_slack = r.u32();
+        ACfg { prop, kt, params, keys, absent, vals, seed, extras, init_vals, oracles, clauses, ro_mode, slot_slack }
     }
     pub fn n_ops(&self) -> usize {
         self.keys.len() * (self.vals.len() + 1)
@@ -934,7 +938,7 @@ impl AWorker {
             }
         }
         // slot count bound per distinct slot size (follows from the rule above by induction)
-        let bound = cfg.keys.len() + cfg.extras.len() + 1;
+        let bound = cfg.keys.len() + cfg.extras.len() + 1 + cfg.slot_slack as usize;
         for (what, fs) in [("key", &ds.keyf), ("val", &ds.valf)] {
             let mut per: HashMap<u32, usize> = HashMap::new();
             for s in fs.slots.values() {
@@ -942,7 +946,7 @@ impl AWorker {
             }
             for (size, n) in per {
                 if n > bound {
-                    f.v(O_ALLOC, idx as i32, &format!("alloc:{what}:slot-count"), format!("after {}: {n} slots of {size} bytes in the {what} file although at most {} entries ever exist (bound {bound})", cfg.op_label(idx), bound - 1));
+                    f.v(O_ALLOC, idx as i32, &format!("alloc:{what}:slot-count"), format!("after {}: {n} slots of {size} bytes in the {what} file although at most {} entries ever exist at once (bound {bound}, including {} slots per size already present in the start image)", cfg.op_label(idx), cfg.keys.len() + cfg.extras.len(), cfg.slot_slack));
                 }
             }
         }
